@@ -294,9 +294,14 @@ def run(tier, seed):
             cases.append(trait_case("c18t_%04d" % i, rng, False))
         else:
             cases.append(trait_case("c18i_%04d" % i, rng, True))
+    # pinned input of a recorded finding (K13): a parameter that a disabled cfg removes from the fn
+    pin = Case("c18known_cfg_disabled_param", """#[::entrait::entrait(pub Subj)] /*@inv*/
+fn subj<D>(deps: &D, #[cfg(any())] ghost: ::no::such::Type, a: i32) -> i32 { a }
+pub fn run() { let app = ::entrait::Impl::new(()); let _ = app.subj(1); }
+""", meta={"pin": "cfg_disabled_param"})
     st = selftest.case("selftest_c18")
     ws = core.Workspace(PROP, "x", vattr=True)
-    ws.extend(cases + [st])
+    ws.extend(cases + [st, pin])
     ws.write()
     b = ws.build()
     ws.run(b["exes"])
@@ -310,5 +315,9 @@ def run(tier, seed):
     ws_vlog = getattr(ws, "vlog", None)
     for c in cases:
         check_case(c, rep, ws.vattr_log)
+    if pin.removed is not None:
+        d = (pin.removed["diags"] or [{}])[0]
+        rep.violation(pin.id, "compile:cfg-disabled-param:%s" % d.get("code"), "a parameter removed by a disabled cfg is kept (without the cfg) in the generated method: %s" % d.get("message", "")[:200],
+                      pinned="cfg_disabled_param")
     core.floors(rep, generated_methods_checked=n, foreign_macro_witnesses=n // 8, cfg_enabled_members_called=n // 10)
-    return rep.finish({c.id: c for c in cases})
+    return rep.finish({c.id: c for c in cases + [pin]})
